@@ -2,6 +2,7 @@ SPECIFICATION Spec
 CONSTANT Kind = "single"
 CONSTANT MaxDepth = 4
 CONSTANT Deviation = "ClobbersPf"
+CONSTANT Setters = FALSE
 CONSTANT Export = FALSE
 INVARIANT C10_Fresh
 CHECK_DEADLOCK FALSE
